@@ -358,6 +358,7 @@ def model_save_quantized_weights(model, filename=None, custom_objects={}):
           # during hardware inference to get the fixed point weights
           scale = scale * m_i / m
           has_scale = True
+          signs.append([])
           scales.append(scale)
         else:
           hw_weight = weight
